@@ -689,6 +689,16 @@ func runScenario(r *vlib.Run, fx *pairFixture, sc scenT, report func(key, what s
 	} else if d := node.DiffDumps(stateOf(ref), stateOf(a)); len(d) > 0 && int(a.Finalized()) == int(ref.Finalized()) {
 		report("state-differs-from-replay:"+sc.Peer, fmt.Sprintf("after the sync (err=%v) A's database differs from a fresh node that applied A's chain: %v", errSync, head(d, 6)), sc)
 	}
+	// finality may have advanced during the sync (valid blocks of the peer before a later one failed): what is finalized
+	// now is just as irreversible
+	if finNow := int(a.Finalized()); finNow > finalized {
+		r.Add("syncs_in_which_finality_advanced", 1)
+		if int(tip.Height) < finNow {
+			report("block-finalized-during-sync-reverted:"+sc.Peer, fmt.Sprintf("after the sync (err=%v) A's tip is at %d, below its finalized height %d (finalized %d before the sync)", errSync, tip.Height, finNow, finalized), sc)
+		} else if _, err := a.Chain.DataAccess().GetBlockHeaderByHeight(uint32(finNow)); err != nil {
+			report("block-finalized-during-sync-reverted:"+sc.Peer, fmt.Sprintf("after the sync (err=%v) the block at A's finalized height %d is not served: %v", errSync, finNow, err), sc)
+		}
+	}
 	if int(tip.Height) < finalized {
 		report("finalized-block-reverted:"+sc.Peer, fmt.Sprintf("A's tip is at %d, below its finalized height %d", tip.Height, finalized), sc)
 	}
